@@ -109,3 +109,69 @@ def replay_file(chk: Check, path: str, clauses: Set[str], in_scope=None) -> None
                   {'cfg': det['cfg'], 'step': dv['step'], 'act': dv['act'], 'what': dv['detail'], 'history': hist[:dv['step']]})
   else:
     print(f'replay: divergence outside this property: {dv["act"]} {dv["clause"]} {dv["detail"]}')
+
+
+TREE_VARS = ('kind', 'ditems', 'litems', 'parent', 'pkey', 'sealed', 'accw', 'subs', 'sstk', 'astk', 'nstk')
+
+
+def replay_transitions(chk: Check, cfg_states: str, cfg_step: str, clauses: Set[str], in_scope=None,
+                       max_states: Optional[int] = None, seed: int = 0) -> Dict[str, int]:
+  """One implementation test per transition.
+
+  Phase 1: exhaustive TLC run (cfg_states, with VIEW) dumps every distinct state within its depth bound.
+  Phase 2: a second exhaustive run (cfg_step: SpecFrom, one step) starts from exactly those states and dumps
+  every transition (the successor carries the call, its outcome and events).  Each transition is then executed
+  on objects built directly from the source state and compared with the successor state.
+  """
+  import json  # pylint: disable=import-outside-toplevel
+  nodes, _, _, r1 = tlc.dump_graph('SymTree', cfg_states, timeout=1800)
+  chk.add_tlc(r1, count_states=False)
+  states = [{k: st[k] for k in TREE_VARS} for st in nodes.values()]
+  states.sort(key=lambda z: json.dumps(z, sort_keys=True, default=list))
+  if max_states is not None and len(states) > max_states:
+    rnd = random.Random(seed)
+    states = rnd.sample(states, max_states)
+  d = tlc.workdir('from-states')
+  f = d / 'init.json'
+  f.write_text(json.dumps(states, default=list))
+  nodes2, edges2, inits2, r2 = tlc.dump_graph('SymTree', cfg_step, env={'INIT_FILE': str(f)}, timeout=3000,
+                                              name='step-' + cfg_step)
+  chk.add_tlc(r2)
+  hits: Dict[str, int] = {}
+  n_tr = 0
+  for src_id, dst_id, _, _ in edges2:
+    if src_id == dst_id or src_id not in nodes2 or dst_id not in nodes2:
+      continue
+    src, dst = nodes2[src_id], nodes2[dst_id]
+    if src['act'][0] != 'From' or dst['act'][0] == 'From':
+      continue
+    rp = symtree.Replayer(clauses)
+    dv = rp.replay_transition(src, dst)
+    n_tr += 1
+    chk.traces += 1
+    chk.evaluations += 1
+    chk.distinct_case(('t', src_id, dst_id))
+    for k, v in rp.hits.items():
+      hits[k] = hits.get(k, 0) + v
+    if dv is None:
+      continue
+    if dv['clause'].startswith('build:'):
+      chk.require(False, f'cannot construct spec state directly: {dv} state={ {k: src[k] for k in TREE_VARS} }')
+    dv['history'] = [dst['act']]
+    clause = dv['clause']
+    claimed = clause in clauses or (clause in ('bind', 'oneplace') and 'parent' in clauses) or clause == 'hang'
+    if claimed and in_scope is not None and clause != 'hang':
+      claimed = in_scope(dv)
+    if claimed:
+      chk.violation({'action': dv['act'][0], 'clause': clause},
+                    {'mode': 'single transition', 'cfg': cfg_step, 'from_state': {k: src[k] for k in TREE_VARS},
+                     'act': dv['act'], 'what': dv['detail']})
+    else:
+      chk.count('out_of_scope_divergence:' + dv['act'][0] + ':' + clause)
+  chk.notes.setdefault('transition_tests', {})[cfg_step] = {'source_states': len(states), 'transitions': n_tr}
+  if len(chk.samples) < 6 and edges2:
+    e = next((e for e in edges2 if nodes2[e[1]]['act'][0] not in ('From',) and nodes2[e[1]]['out']['k'] == 'ok'), None)
+    if e:
+      chk.sample({'single_transition': {'from': {k: nodes2[e[0]][k] for k in ('kind', 'ditems', 'litems')},
+                                        'call': nodes2[e[1]]['act'], 'outcome': nodes2[e[1]]['out']}})
+  return hits
